@@ -346,6 +346,7 @@ func appendTarget(info *types.Info, lhs, rhs ast.Expr) (types.Object, []ast.Expr
 //     call with that call's error refined to non-nil;
 //   - an error variable: for each of its definitions that can be nil (zero declaration, nil, a call result) and
 //     that reaches the return with the variable still nil, the definition must be a granting call.
+//
 // It returns one message per offending return ("" = holds) keyed by return ordinal.
 func (r *RuleCtx) SuccessOnlyFrom(granting CallPred) (msgs []string, nGrant int) {
 	info := r.Info
